@@ -37,8 +37,10 @@ from vf.ref import c17_model as M
 ID = "C17"
 LEVEL = "exploration"
 BOUNDS = {
-    "quick": {"N": 3, "bfs_depth": 3, "bfs_prios": [8, 4, 0], "pairs": False, "multi_len": 4, "multi_thresholds": [8, None, 4]},
-    "thorough": {"N": 4, "bfs_depth": 4, "bfs_prios": list(range(9)), "pairs": True, "multi_len": 6, "multi_thresholds": [*range(9), None]},
+    "quick": {"N": 3, "bfs_depth": 3, "bfs_prios": [8, 4, 0], "pairs": False, "multi_len": 4, "multi_thresholds": [8, None, 4],
+              "bursts": [(10_000, True), (20_000, True), (10_000, False)]},
+    "thorough": {"N": 4, "bfs_depth": 4, "bfs_prios": list(range(9)), "pairs": True, "multi_len": 6, "multi_thresholds": [*range(9), None],
+                 "bursts": [(10_000, True), (20_000, True), (50_000, True), (10_000, False), (50_000, False)]},
 }
 RULE = (
     "record alphabet = 7 levels x tags {none,[],[a],[a,b]} x 13 texts (empty, ascii, newline, CRLF, NUL, emoji, "
@@ -51,7 +53,11 @@ RULE = (
     "{.zst as written, .gz, plain, stdin pipe, stdin file} x {with '<prio>' prefix, prefix stripped}, and as {plain, .zst, .gz} "
     "x {every mixed pattern of prefixed/unprefixed lines (all 2^n-2 masks on lvseq logs, the alternating masks elsewhere), "
     "final newline stripped}; (multi) hr with 2 and 3 FILE arguments over all ordered pairs of logs with 0..4 (quick) / "
-    "0..6 (thorough) records, both orders, every mode x -n value, oracle = single-file outputs concatenated; round trip, len, "
+    "0..6 (thorough) records, both orders, every mode x -n value, oracle = single-file outputs concatenated; (dst) in a child "
+    "interpreter per DST zone (central Europe, south-east Australia; TZ set before gallia.log is imported) logs whose clock "
+    "stands at 7 instants (both periods, both sides of both switches, the repeated local hour): each alone, all 21 "
+    "chronological pairs, all 7; (burst) 10000/20000 (thorough also 50000) short records in one go with the file writer "
+    "stalled via the handler's lock, and without stalling - every record must be read back in order; round trip, len, "
     "records(priority p, offset k, reverse) for all 9 p x k in -(n+1)..n+1 x both directions; hr {forward, reverse, "
     "--head -n, --tail -n} x n in {0,1,len-1,len,len+1,100} x 9 thresholds + default (lvseq logs; fewer thresholds on the other "
     "families / containers, see PROFILES). (bfs) for logs of n=0..N+1 records: "
@@ -63,7 +69,9 @@ RULE = (
 ASSUMPTIONS = [
     "the run's logger is configured like setup_logging() does (level 1); the clock is modelled by a logger filter that "
     "assigns record.created from a deterministic integer-microsecond schedule; TZ is pinned to UTC+05:30 before gallia.log "
-    "is imported so that the offset path of the timestamp is exercised",
+    "is imported so that the offset path of the timestamp is exercised (dst family: a POSIX DST zone in a child interpreter; "
+    "the DST period at import time is that of the real date of the run - the verdict does not depend on it, since the "
+    "schedule has records in both periods)",
     "trusted: python logging/queue, zstandard and gzip as used by the harness to derive the other containers from the "
     "file the real handler wrote; hr's rendering of ONE record (str(PenlogRecord)) - selection, order and multiplicity "
     "of hr's output are decoded against those renderings, and each rendering must contain the record text",
@@ -182,7 +190,7 @@ def write_events(path: Path, events: list[Event], file_level: str, stall_writer:
             if stall_writer:
                 handler.release()
     finally:
-        closer = threading.Thread(target=gl.remove_zst_log_handler, args=(LOGGER, handler), daemon=True)
+        closer = threading.Thread(target=gl.remove_zst_log_handler, args=(LOGGER, handler), daemon=True, name="c17-remove-handler")
         closer.start()
         closer.join(JOIN_TIMEOUT)
         if closer.is_alive():
@@ -199,8 +207,10 @@ def write_events(path: Path, events: list[Event], file_level: str, stall_writer:
         if thread.is_alive():
             G["leaked"] += 1
     for name, typ, msg in G["thread_exc"]:
-        what = "remove_zst_log_handler() raised" if "closer" in name or "Thread-" in name and "_monitor" not in name else "handler thread was killed by"
-        problems.append((f"handler-thread-died|{typ}", f"thread {name}: {what} {typ}: {msg}"))
+        if name == "c17-remove-handler":
+            problems.append((f"remove-handler-raises|{typ}", f"remove_zst_log_handler() raised {typ}: {msg}"))
+        else:
+            problems.append((f"handler-thread-died|{typ}", f"thread {name} was killed by {typ}: {msg} - that record and all later ones never reach the file"))
     G["thread_exc"].clear()
     return problems
 
@@ -954,10 +964,13 @@ def explore_variant(lc: LogCase, variant: str, conts: list[str], sweep: dict[str
     return baseline_ok
 
 
-def check_log(res: Result, item: Any, d: Path, specs: list[M.RecSpec], profile: str, file_level: str = "TRACE", bfs_cfg: tuple[int, list[int]] | None = None) -> None:
+def check_log(
+    res: Result, item: Any, d: Path, specs: list[M.RecSpec], profile: str, file_level: str = "TRACE",
+    bfs_cfg: tuple[int, list[int]] | None = None, times_us: list[int] | None = None, time_labels: list[str] | None = None,
+) -> None:
     prof = PROFILES[profile]
     res.count("logs")
-    lc = LogCase(res, item, d, specs, file_level)
+    lc = LogCase(res, item, d, specs, file_level, times_us=times_us, time_labels=time_labels)
     if not lc.ok:
         return
     res.notes.setdefault("records_per_log", {})
@@ -1068,6 +1081,92 @@ def check_hr_multi(res: Result, item: Any, d: Path, lengths: list[int], threshol
                 )
 
 
+# -- daylight-saving zones ---------------------------------------------------------------------
+
+_CHILD = (
+    "import sys, json, pickle\n"
+    "from vf.checks import c17\n"
+    "r = c17.run_item(tuple(json.loads(sys.argv[1])))\n"
+    "open(sys.argv[2], 'wb').write(pickle.dumps(r))\n"
+)
+
+
+def run_in_zone(item: tuple[Any, ...], tzstring: str, d: Path) -> Result:
+    """run the item in a child interpreter whose TZ is set before gallia.log is imported."""
+    out = d / "child-result.pkl"
+    env = {**os.environ, "C17_TZ": tzstring}
+    proc = subprocess.run(  # noqa: S603
+        [sys.executable, "-c", _CHILD, json.dumps(item), str(out)], env=env, capture_output=True, text=True, timeout=1200, check=False
+    )
+    if proc.returncode != 0 or not out.exists():
+        raise Broken(f"harness: child interpreter for zone {tzstring} failed ({proc.returncode}): {proc.stderr[-1500:]}")
+    res: Result = pickle.loads(out.read_bytes())  # noqa: S301  (written by our own child)
+    return res
+
+
+def check_dst(res: Result, item: Any, d: Path, zone: str) -> None:
+    """logs whose clock stands at the listed instants of a DST zone: each instant alone, every chronological pair, all."""
+    _tzs, points = M.DST_ZONES[zone]
+    idx = list(range(len(points)))
+    seqs = [[i] for i in idx] + [list(c) for c in itertools.combinations(idx, 2)] + [idx]
+    for k, seq in enumerate(seqs):
+        sub = d / f"dst{k}"
+        sub.mkdir()
+        specs: list[M.RecSpec] = [(M.LEVEL_NAMES[(i + k) % 7], (i + k) % 4, ["ascii", "nl", "emoji", "ws"][(i + k) % 4], False) for i in seq]
+        check_log(
+            res, item, sub, specs, "text",
+            times_us=[points[i][2] for i in seq],
+            time_labels=[f"zone={zone}|{points[i][1]}" for i in seq],
+        )
+        shutil.rmtree(sub)
+    res.count("dst_logs", len(seqs))
+
+
+# -- bursts --------------------------------------------------------------------------------------
+
+
+def check_burst(res: Result, item: Any, d: Path, count: int, stall: bool) -> None:
+    """``count`` short records logged in one go, optionally while the file writer is stalled; every record must be in
+    the file, in order."""
+    res.count("logs")
+    res.count("burst_records", count)
+    events: list[Event] = [(M.LEVEL_NAMES[i % 7], f"burst record {i}", None, False, M.BASE_US + i * 1000) for i in range(count)]
+    path = d / "burst.json.zst"
+    mode = "writer-stalled" if stall else "writer-running"
+    doc = {"item": item, "sig": "", "specs": [], "case": {"count": count, "stall": stall}}
+
+    def bad(sig: str, msg: str) -> None:
+        res.violate(sig, msg, {**doc, "sig": sig})
+
+    for part, msg in write_events(path, events, "TRACE", stall_writer=stall):
+        bad(f"C17|burst|{mode}|{part}", f"burst of {count} records: {msg}")
+    res.count("evaluations")
+    res.seen("nontrivial", ("burst", count, stall))
+    try:
+        with G["gl"].PenlogReader(path) as reader:
+            n_obs = len(reader)
+            recs = list(reader.records())
+    except Exception as e:  # gallia call
+        bad(f"C17|burst|{mode}|read-raises-{type(e).__name__}", f"reading back a burst of {count} records raised {e!r}")
+        return
+    if n_obs != count or len(recs) != count:
+        texts = {r.data for r in recs}
+        missing = next((i for i in range(count) if f"burst record {i}" not in texts), None)
+        bad(
+            f"C17|burst|{mode}|records-lost" if len(recs) < count else f"C17|burst|{mode}|count",
+            f"{count} records logged in one burst ({mode}), len(reader)={n_obs}, {len(recs)} read back; first missing record: #{missing}",
+        )
+        return
+    for i, (ev, rec) in enumerate(zip(events, recs, strict=True)):
+        res.count("evaluations")
+        obs = canon(rec)
+        ref = {"text": ev[1], "prio": M.PRIO_OF_LEVEL[ev[0]], "levelno": M.LEVEL_NO[ev[0]], "tags": None, "ts_us": ev[4]}
+        wrong = M.record_mismatches(ref, obs, None)
+        if wrong:
+            bad(f"C17|burst|{mode}|wrong-record|{wrong[0]}", f"record {i} of a burst of {count}: {wrong} differ: logged {ev[:2]} read back {short((obs['data'], obs['prio'], obs['dt']), 120)}")
+            return
+
+
 # -- items -----------------------------------------------------------------------------------
 
 NT = len(M.TEXT_KEYS)
@@ -1106,6 +1205,10 @@ def items(tier: str, seed: int) -> list[tuple[Any, ...]]:
     for la in range(0, b["multi_len"] + 1):
         for lb in range(0, b["multi_len"] + 1):
             out.append(("multi", [la, lb], b["multi_thresholds"]))
+    for zone in M.DST_ZONES:
+        out.append(("dst", zone))
+    for count, stall in b["bursts"]:
+        out.append(("burst", count, stall))
     for fl in ("DEBUG", "INFO", "WARNING", "CRITICAL"):
         for n in range(0, 3):
             for lv in itertools.product(M.LEVEL_NAMES, repeat=n):
@@ -1164,6 +1267,16 @@ def run_item(item: tuple[Any, ...]) -> Result:
         elif fam == "multi":
             _, lengths, thresholds = item
             check_hr_multi(res, item, d, lengths, thresholds)
+        elif fam == "dst":
+            _, zone = item
+            tzstring = M.DST_ZONES[zone][0]
+            if G["tz"] == tzstring:
+                check_dst(res, item, d, zone)
+            else:
+                res = run_in_zone(item, tzstring, d)
+        elif fam == "burst":
+            _, count, stall = item
+            check_burst(res, item, d, count, stall)
         elif fam == "bfs":
             _, n, depth, prios = item
             check_log(res, item, d, bfs_specs(n), "text", bfs_cfg=(depth, prios))
@@ -1202,7 +1315,7 @@ def finish(merged: Result, tier: str) -> dict[str, Any]:
     if not c.get("transitions") and not merged.violations:
         raise Broken("vacuous: no reader operation sequence explored")
     fams = set(merged.notes.get("items_per_family", {}))
-    need = {"lvseq", "txseq", "alpha", "bfs", "flevel", "multi"} | ({"pair"} if BOUNDS[tier]["pairs"] else set())
+    need = {"lvseq", "txseq", "alpha", "bfs", "flevel", "multi", "dst", "burst"} | ({"pair"} if BOUNDS[tier]["pairs"] else set())
     if fams != need:
         raise Broken(f"families run {sorted(fams)} != {sorted(need)}")
     b = BOUNDS[tier]
@@ -1216,5 +1329,7 @@ def finish(merged: Result, tier: str) -> dict[str, Any]:
             "containers": CONTAINERS,
             "variants": ["prefix", "noprefix", "mixed-<every 0/1 mask> (lvseq, bfs) / alternating masks (other families)", "<prefix|noprefix|alternating>-nonl"],
             "multi_file_log_lengths": list(range(0, b["multi_len"] + 1)),
+            "dst_zones": {z: v[0] for z, v in M.DST_ZONES.items()},
+            "bursts": [list(x) for x in b["bursts"]],
         }
     }
